@@ -45,7 +45,7 @@ def _coq_str(s):
 def _kind(k):
     if k.startswith("ptrcall:"):
         return "(KPtrCall %s)" % _coq_str(k.split(":", 1)[1])
-    return {"assign": "KAssign", "incdec": "KIncDec", "addr": "KAddr", "delete": "KDelete", "read": "KRead"}[k]
+    return {"assign": "KAssign", "incdec": "KIncDec", "addr": "KAddr", "delete": "KDelete", "read": "KRead", "synctype": "KSyncType"}[k]
 
 
 def generate(ctx):
@@ -126,7 +126,8 @@ def _round(ctx, j, rng, binary, rbin, ex, pool):
     nlines = 11
     if ctx.thorough:
         keys += list(B.LONG); rng.shuffle(keys); nlines = 14 + 2 * (j % 3)
-    batch = keys[:nlines] + ["bad"] + [keys[0], keys[1]]      # two repeated lines
+    # two repeated lines; several lines of the process read the same weather file with handled oddities in year 2+
+    batch = keys[:nlines] + ["bad"] + [keys[0], keys[1]] + ["odd1", "odd2", "odd3", "odd1"]
     rng.shuffle(batch)
     pre = "r%d_" % j
     ref = B.run_batch(binary, ex, pre + "ref", batch, pool, 1, 4)
@@ -212,6 +213,39 @@ def _reuse(ctx, rng, binary, ex):
     return out
 
 
+_SH = ("project=ex1 WeatherFolder=historical fcode=109_120 Altitude=73 Latitude=52.6732 EndDate=12311983 "
+       "VirtualDateFertilizerPrediction=04011981 ")
+SHARED = {   # the pattern of examples/all_muencheberg_batch.txt: one result folder, same plotNr under several polygon ids (and the reverse)
+    "sh_a": _SH + "soilId=075 plotNr=10001 poligonID=29872",
+    "sh_b": _SH + "soilId=160 plotNr=10001 poligonID=29873",
+    "sh_c": _SH + "soilId=075 plotNr=10001 poligonID=30169 fcode=109_121",
+    "sh_d": _SH + "soilId=075 plotNr=10002 poligonID=29872",
+    "sh_e": _SH + "soilId=160 plotNr=10002 poligonID=30169",
+    "sh_f": "project=ex1 WeatherFolder=historical fcode=109_120 Altitude=73 Latitude=52.6732 EndDate=12311982 soilId=075 plotNr=10001 poligonID=29876",
+}
+
+
+def _shared(ctx, rng, binary, ex):
+    """several lines writing into ONE result folder (distinct output ids), prediction on: every file of every line byte-equal to
+    its solo run, and the set of files = the union of the solo sets; all concurrency levels"""
+    keys = list(SHARED)
+    solo = B.run_batch(binary, ex, "sh_solo", keys, SHARED, 1, 4)
+    want = {}
+    per_line = {}
+    for i, k in enumerate(keys):
+        d = B.folder_digest(os.path.join(solo.root, "l%d" % i))
+        per_line[k] = d
+        want.update(d)
+    runs = []
+    for c in CONC:
+        order = list(keys); rng.shuffle(order)
+        e = B.run_batch(binary, ex, "sh_c%d" % c, order, SHARED, c, rng.choice(GMPS), folders=[0] * len(order))
+        runs.append((e, B.folder_digest(os.path.join(e.root, "l0"))))
+        shutil.rmtree(e.root, ignore_errors=True)
+    shutil.rmtree(solo.root, ignore_errors=True)
+    return {"solo": solo, "want": want, "per_line": per_line, "runs": runs, "name_clash": sum(len(d) for d in per_line.values()) != len(want)}
+
+
 def _fout(ctx):
     vh = ctx.harness()
     d = os.path.join(ctx.work, "fout"); os.makedirs(d, exist_ok=True)
@@ -231,11 +265,20 @@ def _run(ctx):
     except BuildError as e:
         _cache["race_build_error"] = str(e)[-600:]
     ex = B.setup_examples(ctx)
-    pool = dict(B.VALID); pool["bad"] = B.FAILING["unknown-soil-id"]
+    B.make_odd_weather(ex)
+    pool = dict(B.VALID); pool["bad"] = B.FAILING["unknown-soil-id"]; pool.update(B.ODD)
     if ctx.thorough:
         pool.update(B.LONG)
     rounds = [_round(ctx, j, rng, binary, rbin, ex, pool) for j in range(6 if ctx.thorough else 1)]
-    _cache.update(rounds=rounds, pool=pool, ex=ex, reuse=_reuse(ctx, rng, binary, ex), fout=_fout(ctx))
+    # every line of round 0 alone in its own process (the in-process history of a line must not matter)
+    b0 = rounds[0]["batch"]
+    skeys = sorted(set(b0)) if ctx.thorough else sorted({"odd1", "odd2", "odd3"} | set(rng.sample([k for k in b0 if k != "bad"], 3)))
+    solos = dict(B.parallel([lambda k=k: (k, B.run_batch(binary, ex, "solo_" + k, [k], pool, 1, 4)) for k in skeys], 4))
+    solodig = {k: (None if e.died() else B.folder_digest(os.path.join(e.root, "l0"))) for k, e in solos.items()}
+    for k in skeys:
+        shutil.rmtree(os.path.join(ex, "solo_" + k), ignore_errors=True)
+    _cache.update(rounds=rounds, pool=pool, ex=ex, reuse=_reuse(ctx, rng, binary, ex), fout=_fout(ctx),
+                  solos=solos, solodig=solodig, shared=_shared(ctx, rng, binary, ex))
     return _cache
 
 
@@ -311,6 +354,12 @@ def correspond(ctx):
         for x in execs:
             if x.died():
                 c.mismatches.append({"kind": "execution", "tag": x.tag, "what": "process did not finish normally", "rc": x.rc, "stderr": x.stderr[-600:]})
+    sh = r["shared"]
+    c.cases += len(sh["runs"]) + 1 + len(r["solos"]); c.nontrivial += len(sh["runs"]) + len(r["solos"])
+    for e, _ in sh["runs"]:
+        if e.died():
+            c.mismatches.append({"kind": "execution", "tag": e.tag, "what": "process did not finish normally", "rc": e.rc, "stderr": e.stderr[-600:]})
+    c.dist["shared_folder_runs"] = len(sh["runs"]); c.dist["solo_runs"] = len(r["solos"])
     c.dist["reuse_lines"] = len(ru["keys"]); c.dist["reuse_file_kinds"] = "".join(ru["kinds"])
     if "race_build_error" in r:
         c.notes.append("race build failed: " + r["race_build_error"])
@@ -363,6 +412,56 @@ def oracle(ctx, search):
                     fails.append(Fail(key="nondeterminism:%s:%s" % (k, diff[0][:1] if diff else "?"),
                                       what="result files differ from the concurrency-1 reference for the same batch line",
                                       line=pool[k], files=diff[:6], concurrency=e.c, gomaxprocs=e.gmp, tag=e.tag, replay=replay))
+    # a line inside a batch process vs the same line alone in its own process
+    r0 = r["rounds"][0]["ref"]
+    if not r0.died():
+        for i, k in enumerate(r0.contents):
+            sd = r["solodig"].get(k)
+            if k not in r["solodig"]:
+                continue
+            compared += 1
+            if sd is None:
+                fails.append(Fail(key="execution-died:solo:%s" % k, what="a line of the batch does not run alone", line=pool[k]))
+            elif sd != r0.digests[i]:
+                diff = sorted(f for f in set(sd) | set(r0.digests[i]) if sd.get(f) != r0.digests[i].get(f))
+                fails.append(Fail(key="batch-vs-solo:%s:%s" % (k, diff[0][:1] if diff else "?"),
+                                  what="a line gives other result files inside a batch process (concurrency 1, after other lines) than alone in its own process",
+                                  line=pool[k], files=diff[:6], position_in_batch=i,
+                                  replay="cd <copy of /repo/examples> (+ weather/odd of lib/props/batchlib.py make_odd_weather); batch A = the single line `%s resultfolder=A/l0`; "
+                                         "batch B = " % pool[k] + " || ".join("%s resultfolder=B/l%d" % (pool[x], j) for j, x in enumerate(r0.contents)) +
+                                         " ; hermes2go -module batch -concurrent 1 -batch <file>; compare A/l0 with B/l%d" % i))
+    sh = r["shared"]
+    if sh["solo"].died():
+        fails.append(Fail(key="shared-folder:reference", what="solo reference of the shared-folder stage did not finish", stderr=sh["solo"].stderr[-500:]))
+    elif sh["name_clash"]:
+        owners = {}
+        for k, d in sh["per_line"].items():
+            for f in d:
+                owners.setdefault(f, []).append(k)
+        clash = {f: ks for f, ks in owners.items() if len(ks) > 1}
+        f0 = sorted(clash)[0]
+        fails.append(Fail(key="shared-folder:output-name-clash:%s" % f0[:1],
+                          what="lines with distinct (poligonID, plotNr) write a result file of the SAME name: in a shared result folder "
+                               "(the pattern of examples/all_muencheberg_batch.txt) the file holds whichever run finished last",
+                          files={f: [SHARED[k] for k in ks] for f, ks in list(clash.items())[:3]},
+                          replay="cd <copy of /repo/examples>; batch: " + " || ".join("%s resultfolder=S/l0" % SHARED[k] for k in clash[f0]) +
+                                 " ; hermes2go -module batch -concurrent 2 -batch <file>; S/l0/%s is written by both lines" % f0))
+    else:
+        for e, got in sh["runs"]:
+            replay = ("cd <copy of /repo/examples>; batch: " + " || ".join("%s resultfolder=S/l0" % SHARED[k] for k in e.contents) +
+                      " ; GOMAXPROCS=%d hermes2go -module batch -concurrent %d -batch <file>; each file of S/l0 must equal the file of the same name "
+                      "written by that line alone into its own folder, and no other file may exist" % (e.gmp, e.c))
+            if e.died():
+                fails.append(Fail(key="execution-died:shared-folder:c=%d" % e.c, what="batch execution did not finish normally", stderr=e.stderr[-600:], replay=replay))
+                continue
+            compared += len(e.contents)
+            if got != sh["want"]:
+                extra = sorted(set(got) - set(sh["want"])); missing = sorted(set(sh["want"]) - set(got))
+                differ = sorted(f for f in set(got) & set(sh["want"]) if got[f] != sh["want"][f])
+                first = (extra + missing + differ)[0]
+                fails.append(Fail(key="shared-folder:%s:%s" % ("file-set" if extra or missing else "content", first[:1]),
+                                  what="lines sharing a result folder (distinct output ids) do not leave exactly their solo files",
+                                  unexpected_files=extra[:6], missing_files=missing[:6], differing_files=differ[:6], concurrency=e.c, replay=replay))
     ru = r["reuse"]
     if ru["ref"].died():
         fails.append(Fail(key="reference-run:died", what="reference execution of the re-use stage did not finish", stderr=ru["ref"].stderr[-600:]))
